@@ -3,6 +3,11 @@
 # unless meta.json says the thorough tier is needed) and print one line each.
 ROOT="$(cd "$(dirname "${BASH_SOURCE[0]}")/.." && pwd)"
 cd "$ROOT"
+# work from a snapshot of the simulator sources: edits to sim/src during this
+# (long) run do not disturb it
+mkdir -p "$ROOT/sim/build-seeded"
+rm -rf "$ROOT/sim/build-seeded/src-snapshot"; cp -r "$ROOT/sim/src" "$ROOT/sim/build-seeded/src-snapshot"
+export MOMSIM_SRC="$ROOT/sim/build-seeded/src-snapshot"
 for d in seeded/*/; do
   n=$(basename "$d"); [ -f "$d/patch.diff" ] || continue
   if [ "$n" = silent_refactors ]; then
@@ -13,4 +18,3 @@ for d in seeded/*/; do
   tier=quick; [ "$n" = own_racy_noseam ] && tier=thorough
   if [ "$tier" = thorough ]; then VERIF_RUNS=320 tools/seeded.sh "$d" thorough $prop; else tools/seeded.sh "$d" quick $prop; fi
 done
-rm -rf "$ROOT/sim/build-seeded"
